@@ -168,44 +168,44 @@ E, C, F, X_, B_ = "pdf/src/enc.rs", "pdf/src/crypt.rs", "pdf/src/font.rs", "pdf/
 FI, CO, OM, TY, ST = "pdf/src/file.rs", "pdf/src/content.rs", "pdf/src/object/mod.rs", "pdf/src/object/types.rs", "pdf/src/object/stream.rs"
 SENSITIVITY = [
     # ---- enc.rs (gen/extract.py)
-    ("decode_nibble: a..h -> a..f", E, [("a @ b'a' ..= b'h'", "a @ b'a' ..= b'f'"), ("lower @ b'a' ..= b'h'", "lower @ b'a' ..= b'f'"), ("(b'a'..=b'h').contains(&c)", "(b'a'..=b'f').contains(&c)")]),
+    ("decode_nibble: a..h -> a..f", E, [("a @ b'a' ..= b'h'", "a @ b'a' ..= b'f'"), ("lower @ b'a' ..= b'h'", "lower @ b'a' ..= b'f'"), ("(b'a'..=b'h').contains(&c)", "(b'a'..=b'f').contains(&c)"), ("a @ b'a'..=b'h'", "a @ b'a'..=b'f'")]),
     ("encode_nibble: base 'a' -> 'A'", E, [("b'a' - 10 + c", "b'A' - 10 + c")]),
     ("decode_hex: form feed no longer skipped", E, [(".filter(|&b| !matches!(b, 0 | 9 | 10 | 12 | 13 | 32))", ".filter(|&b| !matches!(b, 0 | 9 | 10 | 13 | 32))"),
-                                                     ("0 | 9 | 10 | 12 | 13 | 32 => true", "0 | 9 | 10 | 13 | 32 => true"), (".filter(|&b| !matches!(b, 0 | b'\\t' | b'\\n' | 0x0C | b'\\r' | b' '))", ".filter(|&b| !matches!(b, 0 | b'\\t' | b'\\n' | b'\\r' | b' '))", 0)]),
+                                                     ("0 | 9 | 10 | 12 | 13 | 32 => true", "0 | 9 | 10 | 13 | 32 => true"), (".filter(|&b| !matches!(b, 0 | b'\\t' | b'\\n' | 0x0C | b'\\r' | b' '))", ".filter(|&b| !matches!(b, 0 | b'\\t' | b'\\n' | b'\\r' | b' '))", 0), ("matches!(b, 0 | b'\\t' | b'\\n' | 0x0c | b'\\r' | b' ')", "matches!(b, 0 | b'\\t' | b'\\n' | b'\\r' | b' ')"), (".filter(|&b| !matches!(b, b'\\0' | b'\\t' | b'\\n' | b'\\x0c' | b'\\r' | b' '))", ".filter(|&b| !matches!(b, b'\\0' | b'\\t' | b'\\n' | b'\\r' | b' '))", 0), ("matches!(b, 0 | b'\\t' | b'\\n' | 12 | b'\\r' | b' ')\n}", "matches!(b, 0 | b'\\t' | b'\\n' | b'\\r' | b' ')\n}")]),
     ("decode_hex: EOD '>' -> '<'", E, [("take_while(|&b| b != b'>')", "take_while(|&b| b != b'<')"), ("take_while(|b| *b != 62)", "take_while(|b| *b != 60)")]),
-    ("sym_85: range end 0x75 -> 0x74", E, [("0x21 ..= 0x75", "0x21 ..= 0x74")]),
+    ("sym_85: range end 0x75 -> 0x74", E, [("0x21 ..= 0x75", "0x21 ..= 0x74"), ("const A85_LAST: u8 = b'u';", "const A85_LAST: u8 = b't';")]),
     ("decode_85: form feed no longer skipped", E, [("0 | b'\\t' | b'\\n' | 12 | b'\\r' | b' '", "0 | b'\\t' | b'\\n' | b'\\r' | b' '"),
-                                                    ("0 | 9 | 10 | 12 | 13 | 32 => true", "0 | 9 | 10 | 13 | 32 => true"), (".filter(|&b| !matches!(b, 0 | b'\\t' | b'\\n' | 0x0C | b'\\r' | b' '))", ".filter(|&b| !matches!(b, 0 | b'\\t' | b'\\n' | b'\\r' | b' '))", 1), ("!matches!(*b, 0 | b'\\t' | b'\\n' | 12 | b'\\r' | b' ')", "!matches!(*b, 0 | b'\\t' | b'\\n' | b'\\r' | b' ')")]),
+                                                    ("0 | 9 | 10 | 12 | 13 | 32 => true", "0 | 9 | 10 | 13 | 32 => true"), (".filter(|&b| !matches!(b, 0 | b'\\t' | b'\\n' | 0x0C | b'\\r' | b' '))", ".filter(|&b| !matches!(b, 0 | b'\\t' | b'\\n' | b'\\r' | b' '))", 1), ("!matches!(*b, 0 | b'\\t' | b'\\n' | 12 | b'\\r' | b' ')", "!matches!(*b, 0 | b'\\t' | b'\\n' | b'\\r' | b' ')"), ("matches!(b, 0 | b'\\t' | b'\\n' | 0x0c | b'\\r' | b' ')", "matches!(b, 0 | b'\\t' | b'\\n' | b'\\r' | b' ')"), (".filter(|&b| !matches!(b, b'\\0' | b'\\t' | b'\\n' | b'\\x0c' | b'\\r' | b' '))", ".filter(|&b| !matches!(b, b'\\0' | b'\\t' | b'\\n' | b'\\r' | b' '))", 1)]),
     ("decode_85: '~' -> '}'", E, [("take_while(|&b| b != b'~')", "take_while(|&b| b != b'}')")]),
     ("decode_85: 'z' -> 'y'", E, [("Some(b'z') =>", "Some(b'y') =>"), ("Some(0x7A) =>", "Some(0x79) =>")]),
     ("decode_85: padding of the empty tail 'u' -> 'v'", E, [("[b'u'; 5]", "[b'v'; 5]"), ("[117; 5]", "[118; 5]")]),
     ("decode_85: '>' after '~' -> '<'", E, [("(Some(b'>'), None) => Ok(out)", "(Some(b'<'), None) => Ok(out)")]),
-    ("run_length_decode: literal runs below 127", E, [("if length < 128 {", "if length < 127 {"), ("if len_byte < 128 {", "if len_byte < 127 {")]),
+    ("run_length_decode: literal runs below 127", E, [("if length < 128 {", "if length < 127 {"), ("if len_byte < 128 {", "if len_byte < 127 {"), ("            0..=127 => {", "            0..=126 => {"), ("if length < RUN_LENGTH_EOD {", "if length < RUN_LENGTH_EOD - 1 {")]),
     ("run_length_decode: repeat base 257 -> 256", E, [("257 - length", "256 - length"), ("257 - len_byte", "256 - len_byte"), ("257 - run", "256 - run")]),
     ("PredictorType::from_u8: 3 -> Paeth", E, [("3 => Ok(PredictorType::Avg),", "3 => Ok(PredictorType::Paeth),"), ("3 => PredictorType::Avg,", "3 => PredictorType::Paeth,")]),
     ("PredictorType::from_u8: arm 4 dropped", E, [("            4 => Ok(PredictorType::Paeth),\n", ""), ("            4 => PredictorType::Paeth,\n", "")]),
-    ("unpredict: PNG from 11", E, [("if predictor >= 10 {", "if predictor > 10 {"), ("if predictor > 9 {", "if predictor > 10 {")]),
+    ("unpredict: PNG from 11", E, [("if predictor >= 10 {", "if predictor > 10 {"), ("if predictor > 9 {", "if predictor > 10 {"), ("10..=i32::MAX => png_unpredict", "11..=i32::MAX => png_unpredict")]),
     # ---- gen/extract_syn.py
     ("is_whitespace: form feed dropped", L, [(" | b'\\x0c')", ")"), ("0x00 | 0x09 | 0x0A | 0x0C | 0x0D | 0x20", "0x00 | 0x09 | 0x0A | 0x0D | 0x20"), ("[0u8, 9, 10, 12, 13, 32].contains(&b)", "[0u8, 9, 10, 13, 32].contains(&b)"), ("0 | b' ' | b'\\r' | b'\\n' | b'\\t' | b'\\x0c' => true", "0 | b' ' | b'\\r' | b'\\n' | b'\\t' => true"), ("b == 0 || b.is_ascii_whitespace()", "b == 0 || (b.is_ascii_whitespace() && b != 12)")]),
     ("is_delimiter: '%' dropped", L, [('b"()<>[]{}/%"', 'b"()<>[]{}/"'), (" | b'/' | b'%'))", " | b'/'))")]),
-    ("next_word: comment starts with '#'", L, [("Some(&b'%')", "Some(&b'#')"), ("Some(&0x25)", "Some(&0x23)")]),
+    ("next_word: comment starts with '#'", L, [("Some(&b'%')", "Some(&b'#')"), ("Some(&0x25)", "Some(&0x23)"), ("const COMMENT_START: u8 = b'%';", "const COMMENT_START: u8 = b'#';")]),
     ("next_word: a comment ends at LF only", L, [("|&b| b == b'\\n' || b == b'\\r'", "|&b| b == b'\\n'"), ("matches!(*ch, 0x0A | 0x0D)", "matches!(*ch, 0x0A)"), ("|&c| c == b'\\n' || c == b'\\r'", "|&c| c == b'\\n'"), ("|&b| matches!(b, b'\\n' | b'\\r')", "|&b| matches!(b, b'\\n')")]),
-    ("next_lexeme: \\b -> 0x07", S, [("b'b' => Some(b'\\x08')", "b'b' => Some(b'\\x07')"), ("b'b' => Some(0x08)", "b'b' => Some(0x07)"), ("b'b' => Some(8u8)", "b'b' => Some(7u8)")]),
+    ("next_lexeme: \\b -> 0x07", S, [("b'b' => Some(b'\\x08')", "b'b' => Some(b'\\x07')"), ("b'b' => Some(0x08)", "b'b' => Some(0x07)"), ("b'b' => Some(8u8)", "b'b' => Some(7u8)"), ("const BACKSPACE: u8 = 0x08;", "const BACKSPACE: u8 = 0x07;")]),
     ("next_lexeme: \\n -> CR", S, [("b'n' => Some(b'\\n')", "b'n' => Some(b'\\r')"), ("b'n' => Some(0x0A)", "b'n' => Some(0x0D)")]),
-    ("next_lexeme: escape arm \\f dropped", S, [("                    b'f' => Some(b'\\x0c'),\n", ""), ("                    b'f' => Some(0x0C),\n", ""), ("                    b'f' => Some(0x0C), // form feed\n", "")]),
+    ("next_lexeme: escape arm \\f dropped", S, [("                    b'f' => Some(b'\\x0c'),\n", ""), ("                    b'f' => Some(0x0C),\n", ""), ("                    b'f' => Some(0x0C), // form feed\n", ""), ("                    b'f' => Some(FORM_FEED),\n", "")]),
     ("next_lexeme: octal digits 0..9", S, [("(b'0'..=b'7').contains", "(b'0'..=b'9').contains"), ("matches!(c, b'0'..=b'7')", "matches!(c, b'0'..=b'9')"), ("!matches!(digit, b'0'..=b'7')", "!matches!(digit, b'0'..=b'9')"), ("!matches!(c, b'0'..=b'7')", "!matches!(c, b'0'..=b'9')")]),
     ("next_lexeme: octal digit test is_ascii_digit (seeded C03b)", S, [("(b'0'..=b'7').contains(&c)", "c.is_ascii_digit()"), ("!(b'0'..=b'7').contains(&digit)", "!digit.is_ascii_digit()"), ("!matches!(digit, b'0'..=b'7')", "!digit.is_ascii_digit()"), ("!matches!(c, b'0'..=b'7')", "!c.is_ascii_digit()"), ("if matches!(c, b'0'..=b'7') {", "if c.is_ascii_digit() {")]),
     ("next_lexeme: octal digit test polarity", S, [("if (b'0'..=b'7').contains(&c) {", "if !(b'0'..=b'7').contains(&c) {"), ("if !(b'0'..=b'7').contains(&digit) {", "if (b'0'..=b'7').contains(&digit) {"), ("if matches!(c, b'0'..=b'7') {", "if !matches!(c, b'0'..=b'7') {"), ("if !matches!(digit, b'0'..=b'7') {", "if matches!(digit, b'0'..=b'7') {"), ("if !matches!(c, b'0'..=b'7') {", "if matches!(c, b'0'..=b'7') {")]),
     ("next_lexeme: at most 2 octal digits", S, [("for _ in 0..3 {", "for _ in 0..2 {")]),
     ("next_lexeme: octal base 10", S, [("char_code = char_code * 8 +", "char_code = char_code * 10 +")]),
-    ("hex string: form feed is not white-space", S, [(" || byte == b'\\x0c'", ""), (" || byte == 0x0C", ""), (" | b'\\r' | 12 | 0)", " | b'\\r' | 0)"), ("while matches!(byte, b' ' | b'\\t' | b'\\n' | b'\\r' | b'\\x0c' | 0) {", "while matches!(byte, b' ' | b'\\t' | b'\\n' | b'\\r' | 0) {"), ("while byte == 0 || byte.is_ascii_whitespace() {", "while byte == 0 || (byte.is_ascii_whitespace() && byte != 12) {")]),
-    ("next_hex_byte: high nibble A..F + 0xB", S, [("c1 - b'A' + 0xA", "c1 - b'A' + 0xB"), ("b'A' ..= b'F' => Some(c - b'A' + 0xA),", "b'A' ..= b'F' => Some(c - b'A' + 0xB),")]),
+    ("hex string: form feed is not white-space", S, [(" || byte == b'\\x0c'", ""), (" || byte == 0x0C", ""), (" | b'\\r' | 12 | 0)", " | b'\\r' | 0)"), ("while matches!(byte, b' ' | b'\\t' | b'\\n' | b'\\r' | b'\\x0c' | 0) {", "while matches!(byte, b' ' | b'\\t' | b'\\n' | b'\\r' | 0) {"), ("while byte == 0 || byte.is_ascii_whitespace() {", "while byte == 0 || (byte.is_ascii_whitespace() && byte != 12) {"), ("while matches!(byte, b' ' | b'\\t' | b'\\n' | b'\\r' | FORM_FEED | 0) {", "while matches!(byte, b' ' | b'\\t' | b'\\n' | b'\\r' | 0) {"), ("while matches!(byte, b' ' | b'\\t' | b'\\n' | b'\\r' | b'\\x0c' | b'\\0') {", "while matches!(byte, b' ' | b'\\t' | b'\\n' | b'\\r' | b'\\0') {")]),
+    ("next_hex_byte: high nibble A..F + 0xB", S, [("c1 - b'A' + 0xA", "c1 - b'A' + 0xB"), ("b'A' ..= b'F' => Some(c - b'A' + 0xA),", "b'A' ..= b'F' => Some(c - b'A' + 0xB),"), ("b'A'..=b'F' => Some(c - b'A' + 0xA),", "b'A'..=b'F' => Some(c - b'A' + 0xB),")]),
     ("next_hex_byte: end '>' -> '<'", S, [("b'>' => return Ok(None)", "b'<' => return Ok(None)"), ("0x3E => return Ok(None)", "0x3C => return Ok(None)"), ("(b'>', None) => return Ok(None)", "(b'<', None) => return Ok(None)")]),
     ("next_stream: LF test -> VT", L, [("if b0 == b'\\n' {", "if b0 == b'\\x0b' {"), ("if first == b'\\n' {", "if first == b'\\x0b' {"), ("if first == 0x0A {", "if first == 0x0B {"), ("b'\\n' => self.pos = pos + 1,", "b'\\x0b' => self.pos = pos + 1,")]),
     ("next_stream: CR LF skips 3", L, [("self.pos = pos + 2;", "self.pos = pos + 3;")]),
     ("MAX_DEPTH 20 -> 19", "pdf/src/parser/mod.rs", [("const MAX_DEPTH: usize = 20;", "const MAX_DEPTH: usize = 19;")]),
-    ("serialize_name: '~' escaped", P, [("b'!' ..= b'~' if", "b'!' ..= b'}' if"), ("0x21 ..= 0x7E if", "0x21 ..= 0x7D if"), ("b if b.is_ascii_graphic() && !b", "b if b.is_ascii_graphic() && b != b'~' && !b")]),
-    ("serialize_name: '#' written raw", P, [('!b"()<>[]{}/%#".contains(&b)', '!b"()<>[]{}/%".contains(&b)'), ("b'/', b'%', b'#'];", "b'/', b'%', b'%'];"), ('!b"()<>[]{}/%#".contains(&byte)', '!b"()<>[]{}/%".contains(&byte)')]),
+    ("serialize_name: '~' escaped", P, [("b'!' ..= b'~' if", "b'!' ..= b'}' if"), ("0x21 ..= 0x7E if", "0x21 ..= 0x7D if"), ("b if b.is_ascii_graphic() && !b", "b if b.is_ascii_graphic() && b != b'~' && !b"), ("b'!'..=b'~' if", "b'!'..=b'}' if")]),
+    ("serialize_name: '#' written raw", P, [('!b"()<>[]{}/%#".contains(&b)', '!b"()<>[]{}/%".contains(&b)'), ("b'/', b'%', b'#'];", "b'/', b'%', b'%'];"), ('!b"()<>[]{}/%#".contains(&byte)', '!b"()<>[]{}/%".contains(&byte)'), ('const NAME_ESCAPED: &[u8] = b"()<>[]{}/%#";', 'const NAME_ESCAPED: &[u8] = b"()<>[]{}/%";')]),
     ("PdfString::serialize: hex from 0x81", P, [("any(|&b| b >= 0x80)", "any(|&b| b > 0x80)"), ("any(|b| *b > 127)", "any(|b| *b > 128)"), ("any(|b| !b.is_ascii())", "any(|b| !b.is_ascii() && *b != 128)")]),
     # ---- gen/extract_codec.py
     ("predictor_geometry: 16 bits no longer allowed", E, [("params.bits_per_component, 1 | 2 | 4 | 8 | 16)", "params.bits_per_component, 1 | 2 | 4 | 8)"), ("1 | 2 | 4 | 8 | 16 => true,", "1 | 2 | 4 | 8 => true,")]),
@@ -216,26 +216,26 @@ SENSITIVITY = [
     ("StreamInfo: /DecodeParms -> /DP", ST, [('dict.remove("DecodeParms")', 'dict.remove("DP")')]),
     # ---- gen/extract_crypt.py
     ("key derivation: /EncryptMetadata bytes", C, [("hash.consume([0xff, 0xff, 0xff, 0xff]);", "hash.consume([0xff, 0xff, 0xff, 0xfe]);"), ("hash.consume([0xff_u8; 4]);", "hash.consume([0xff_u8; 3]);")]),
-    ("key derivation: password padded to 31", C, [("if pass.len() < 32 {", "if pass.len() < 31 {", 0)]),
-    ("key derivation: md5 rounds on 15 bytes", C, [("md5::compute(&data[..std::cmp::min(key_size, 16)])", "md5::compute(&data[..std::cmp::min(key_size, 15)])"), ("md5::compute(&data[..key_size.min(16)])", "md5::compute(&data[..key_size.min(15)])")]),
+    ("key derivation: password padded to 31", C, [("if pass.len() < 32 {", "if pass.len() < 31 {", 0), ("const PASSWORD_LEN: usize = 32;", "const PASSWORD_LEN: usize = 31;"), ("if pass.len() < PADDING.len() {", "if pass.len() < PADDING.len() - 1 {")]),
+    ("key derivation: md5 rounds on 15 bytes", C, [("md5::compute(&data[..std::cmp::min(key_size, 16)])", "md5::compute(&data[..std::cmp::min(key_size, 15)])"), ("md5::compute(&data[..key_size.min(16)])", "md5::compute(&data[..key_size.min(15)])"), ("md5::compute(&data[..key_size.min(MAX_KEY_LEN_V4)])", "md5::compute(&data[..key_size.min(MAX_KEY_LEN_V4 - 1)])")]),
     ("decrypt: salt", C, [('b"sAlT"', 'b"sAlt"'), ("[0x73, 0x41, 0x6C, 0x54]", "[0x73, 0x41, 0x6C, 0x74]"), ("[b's', b'A', b'l', b'T']", "[b's', b'A', b'l', b't']")]),
     ("decrypt: 2 bytes of the object number (seeded C06)", C, [("id.id.to_le_bytes()[..3]", "id.id.to_le_bytes()[..2]", 0), ("&id_bytes[..3]", "&id_bytes[..2]")]),
     ("decrypt: object key capped at 15", C, [("(n + 5).min(16)", "(n + 5).min(15)", 0)]),
-    ("Decoder::key capped at 15", C, [("&self.key[.. std::cmp::min(self.key_size, 16)]", "&self.key[.. std::cmp::min(self.key_size, 15)]"), ("let len = self.key_size.min(16);", "let len = self.key_size.min(15);"), ("16_usize.min(self.key_size)", "15_usize.min(self.key_size)"), ("&self.key[.. self.key_size.min(16)]", "&self.key[.. self.key_size.min(15)]")]),
+    ("Decoder::key capped at 15", C, [("&self.key[.. std::cmp::min(self.key_size, 16)]", "&self.key[.. std::cmp::min(self.key_size, 15)]"), ("let len = self.key_size.min(16);", "let len = self.key_size.min(15);"), ("16_usize.min(self.key_size)", "15_usize.min(self.key_size)"), ("&self.key[.. self.key_size.min(16)]", "&self.key[.. self.key_size.min(15)]"), ("&self.key[..self.key_size.min(MAX_KEY_LEN_V4)]", "&self.key[..self.key_size.min(MAX_KEY_LEN_V4 - 1)]")]),
     # ---- gen/extract_font.py
     ("parse_cid: one-byte code has length 3", F, [("1 => Ok(b[0] as u16)", "3 => Ok(b[0] as u16)"), ("1 => Ok(bytes[0] as u16)", "3 => Ok(bytes[0] as u16)")]),
     ("next_hex_byte: shift 3", S, [("(high_nibble << 4)", "(high_nibble << 3)")]),
     ("next_word: name starts with '\\'", L, [("if self.buf[pos] == b'/' {", "if self.buf[pos] == b'\\\\' {")]),
-    ("next_word: '>>' -> ']]'", L, [('slice == b">>"', 'slice == b"]]"'), ("slice == &[b'>', b'>']", "slice == &[b']', b']']")]),
+    ("next_word: '>>' -> ']]'", L, [('slice == b">>"', 'slice == b"]]"'), ("slice == &[b'>', b'>']", "slice == &[b']', b']']"), ('Some(b"<<" | b">>")', 'Some(b"<<" | b"]]")')]),
     # ---- gen/extract_xref.py
     ("HEADER without '-'", B_, [('const HEADER: &[u8] = b"%PDF-";', 'const HEADER: &[u8] = b"%PDF";'), ("b'D', b'F', b'-'];", "b'D', b'F'];"), ('const HEADER: &[u8; 5] = b"%PDF-";', 'const HEADER: &[u8; 4] = b"%PDF";')]),
-    ("header window 512", B_, [("std::cmp::min(1024, self.len())", "std::cmp::min(512, self.len())"), ("self.len().min(1024)", "self.len().min(512)"), ("1024_usize.min(self.len())", "512_usize.min(self.len())")]),
-    ("XRefTable::new: generation 65534", X_, [("gen_nr: 0xffff }", "gen_nr: 0xfffe }"), ("gen_nr: 65535 }", "gen_nr: 65534 }"), ("gen_nr: 0o177777 }", "gen_nr: 0o177776 }"), ("gen_nr: 65_535 }", "gen_nr: 65_534 }")]),
+    ("header window 512", B_, [("std::cmp::min(1024, self.len())", "std::cmp::min(512, self.len())"), ("self.len().min(1024)", "self.len().min(512)"), ("1024_usize.min(self.len())", "512_usize.min(self.len())"), ("const HEADER_SEARCH_LEN: usize = 1024;", "const HEADER_SEARCH_LEN: usize = 512;")]),
+    ("XRefTable::new: generation 65534", X_, [("gen_nr: 0xffff }", "gen_nr: 0xfffe }"), ("gen_nr: 65535 }", "gen_nr: 65534 }"), ("gen_nr: 0o177777 }", "gen_nr: 0o177776 }"), ("gen_nr: 65_535 }", "gen_nr: 65_534 }"), ("const FREE_LIST_HEAD_GEN: GenNr = 0xffff;", "const FREE_LIST_HEAD_GEN: GenNr = 0xfffe;")]),
     ("XRefTable::new: filled with Promised", X_, [("entries.resize(num_objects as usize, XRef::Invalid);", "entries.resize(num_objects as usize, XRef::Promised);"), ("vec![XRef::Invalid; num_objects as usize]", "vec![XRef::Promised; num_objects as usize]")]),
-    ("xref stream: fields of a type-1 entry swapped", PX, [("XRef::Raw {pos: field1 as usize, gen_nr: field2 as GenNr}", "XRef::Raw {pos: field2 as usize, gen_nr: field1 as GenNr}"), ("XRef::Raw { pos: field1 as usize, gen_nr: field2 as GenNr }", "XRef::Raw { pos: field2 as usize, gen_nr: field1 as GenNr }")]),
+    ("xref stream: fields of a type-1 entry swapped", PX, [("XRef::Raw {pos: field1 as usize, gen_nr: field2 as GenNr}", "XRef::Raw {pos: field2 as usize, gen_nr: field1 as GenNr}"), ("XRef::Raw { pos: field1 as usize, gen_nr: field2 as GenNr }", "XRef::Raw { pos: field2 as usize, gen_nr: field1 as GenNr }"), ("            1 => XRef::Raw {\n                pos: field1 as usize,\n                gen_nr: field2 as GenNr,", "            1 => XRef::Raw {\n                pos: field2 as usize,\n                gen_nr: field1 as GenNr,")]),
     ("xref stream: type 2 entry read as type 3", PX, [("2 => XRef::Stream {", "3 => XRef::Stream {")]),
-    ("xref stream: default type 0", PX, [("if w0 == 0 {\n            1\n", "if w0 == 0 {\n            0\n"), ("0 => 1,\n            _ => read_u64_from_stream(w0, data)?,", "0 => 0,\n            _ => read_u64_from_stream(w0, data)?,")]),
-    ("read_u64_from_stream: 4 bits per byte", PX, [("= 8 * i;", "= 4 * i;"), ("= 8 * remaining;", "= 4 * remaining;"), ("= i * 8;", "= i * 4;")]),
+    ("xref stream: default type 0", PX, [("if w0 == 0 {\n            1\n", "if w0 == 0 {\n            0\n"), ("0 => 1,\n            _ => read_u64_from_stream(w0, data)?,", "0 => 0,\n            _ => read_u64_from_stream(w0, data)?,"), ("let _type = if w0 == 0 { 1 } else {", "let _type = if w0 == 0 { 0 } else {")]),
+    ("read_u64_from_stream: 4 bits per byte", PX, [("= 8 * i;", "= 4 * i;"), ("= 8 * remaining;", "= 4 * remaining;"), ("= i * 8;", "= i * 4;"), ("|acc, &c| (acc << 8) | u64::from(c)", "|acc, &c| (acc << 4) | u64::from(c)")]),
     ("read_u64_from_stream: width limit u32", PX, [("size_of::<u64>()", "size_of::<u32>()")]),
     ("xref table: keyword f -> F", PX, [('if w3 == "f" {', 'if w3 == "F" {'), ('if keyword == "f" {', 'if keyword == "F" {'), ('if kind == "f" {', 'if kind == "F" {')]),
     ("xref table: offset read as u32", PX, [("w1.to::<usize>()", "w1.to::<u32>()"), ("first.to::<usize>()", "first.to::<u32>()")]),
@@ -245,21 +245,21 @@ SENSITIVITY = [
     ("write_stream: /W [2 ..]", X_, [("w: vec![1, a_w, b_w]", "w: vec![2, a_w, b_w]")]),
     ("write_stream: /Index [1 ..]", X_, [("index: vec![0, size as u32]", "index: vec![1, size as u32]"), ("index: vec![0, size_u32]", "index: vec![1, size_u32]"), ("index: vec![0, size],", "index: vec![1, size],")]),
     ("write_stream: /Index ends with size + 1", X_, [("index: vec![0, size as u32]", "index: vec![0, size as u32 + 1]"), ("let size_u32 = size as u32;", "let size_u32 = (size + 1) as u32;"), ("let size = size as u32;", "let size = (size + 1) as u32;")]),
-    ("write_stream: fields cut from byte 7", X_, [("[8 - a_w ..]", "[7 - a_w ..]")]),
+    ("write_stream: fields cut from byte 7", X_, [("[8 - a_w ..]", "[7 - a_w ..]"), ("[8 - a_w..]", "[7 - a_w..]")]),
     ("write_stream: widths swapped (seeded C10)", X_, [("let (max_a, max_b) = self.max_field_widths();", "let (max_b, max_a) = self.max_field_widths();")]),
     ("resolve_ref: changes looked up by generation", FI, [("self.changes.get(&r.id)", "self.changes.get(&r.gen)")]),
     ("resolve_ref: pending changes consulted after the table", FI, [("        match self.changes.get(&r.id) {\n            Some((p, _)) => Ok((*p).clone()),\n            None => match t!(self.refs.get(r.id)) {", "        match self.changes.get(&r.gen) {\n            Some((p, _)) => Ok((*p).clone()),\n            None => match t!(self.refs.get(r.id)) {"),
-                                                                    ("            return Ok((*changed).clone());", "            let _ = changed;"), ("Some((changed, _)) => Ok(changed.clone()),", "Some((changed, _)) if false => Ok(changed.clone()),"), ("Some((p, _)) => Ok(p.clone()),", "Some((p, _)) if false => Ok(p.clone()),")]),
+                                                                    ("            return Ok((*changed).clone());", "            let _ = changed;"), ("Some((changed, _)) => Ok(changed.clone()),", "Some((changed, _)) if false => Ok(changed.clone()),"), ("Some((p, _)) => Ok(p.clone()),", "Some((p, _)) if false => Ok(p.clone()),"), ("            return Ok(p.clone());", "            let _ = p;"), ("            return Ok((*p).clone());", "            let _ = p;")]),
     # ---- gen/extract_import.py
     ("Storage::empty: XRefTable::new(1)", FI, [("refs: XRefTable::new(0),", "refs: XRefTable::new(1),", 0)]),
     ("Primitive::deep_clone: references copied as they are", OM, [("Primitive::Reference(r) => Ok(Primitive::Reference(r.deep_clone(cloner)?)),", "Primitive::Reference(r) => Ok(Primitive::Reference(r)),")]),
     ("Primitive::deep_clone: arrays shallow", OM, [("Ok(Primitive::Array(parts.into_iter().map(|p| p.deep_clone(cloner)).try_collect()?))", "Ok(Primitive::Array(parts.clone()))"),
-                                                 ("let cloned_parts = parts.into_iter().map(|part| part.deep_clone(cloner)).try_collect()?;", "let cloned_parts = parts.clone();"), ("let cloned = parts.iter().map(|part| part.deep_clone(cloner)).try_collect()?;", "let cloned = parts.clone();")]),
+                                                 ("let cloned_parts = parts.into_iter().map(|part| part.deep_clone(cloner)).try_collect()?;", "let cloned_parts = parts.clone();"), ("let cloned = parts.iter().map(|part| part.deep_clone(cloner)).try_collect()?;", "let cloned = parts.clone();"), ("parts.iter().map(|p| p.deep_clone(cloner)).try_collect()?,", "parts.clone(),")]),
     # ---- gen/extract_content.py
     ("RenderingIntent::from_str: Perceptual -> Saturation", TY, [('"Perceptual" => Some(RenderingIntent::Perceptual),', '"Perceptual" => Some(RenderingIntent::Saturation),')]),
     ("inline image: CS expands to Colorspace", CO, [('("CS", "ColorSpace"),', '("CS", "Colorspace"),')]),
     ("inline image: G expands to DeviceRGB", CO, [('("G", "DeviceGray"),', '("G", "DeviceRGB"),')]),
-    ("inline image: filter abbreviation entry dropped", CO, [('            ("RL", "RunLengthDecode"),\n', "")]),
+    ("inline image: filter abbreviation entry dropped", CO, [('            ("RL", "RunLengthDecode"),\n', ""), ('    ("RL", "RunLengthDecode"),\n', "")]),
     ("OpBuilder::parse: errors dropped under another option", CO, [("Err(e) if resolve.options().allow_invalid_ops => {", "Err(e) if resolve.options().allow_error_in_option => {"),
                                                                     ("if resolve.options().allow_invalid_ops {", "if resolve.options().allow_error_in_option {")]),
     ("OpBuilder::parse: polarity of allow_invalid_ops", CO, [("Err(e) if resolve.options().allow_invalid_ops => {", "Err(e) if !resolve.options().allow_invalid_ops => {"),
@@ -267,8 +267,8 @@ SENSITIVITY = [
     ("ParseOptions::strict: allow_invalid_ops false", OM, [("allow_invalid_ops: true,", "allow_invalid_ops: false,", 1)]),
     # ---- gen/extract_cache.py
     ("raw_image_data: LZW counts as an image filter", TY, [("StreamFilter::LZWDecode(_) => false,", "StreamFilter::LZWDecode(_) => true,"), ("                    | StreamFilter::LZWDecode(_)\n", ""), (" | StreamFilter::LZWDecode(_) | StreamFilter::RunLengthDecode))", " | StreamFilter::RunLengthDecode))")]),
-    ("raw_image_data: Crypt counts as a transport filter", TY, [("StreamFilter::Crypt => true,", "StreamFilter::Crypt => false,"), ("| StreamFilter::RunLengthDecode => false,", "| StreamFilter::RunLengthDecode | StreamFilter::Crypt => false,"), (" | StreamFilter::RunLengthDecode))", " | StreamFilter::RunLengthDecode | StreamFilter::Crypt))")]),
-    ("raw_image_data: default false", TY, [("                    _ => true\n                }).unwrap_or(filters.len());", "                    _ => false\n                }).unwrap_or(filters.len());"), ("rposition(|f| !matches!(f, StreamFilter::ASCIIHexDecode", "rposition(|f| matches!(f, StreamFilter::ASCIIHexDecode")]),
+    ("raw_image_data: Crypt counts as a transport filter", TY, [("StreamFilter::Crypt => true,", "StreamFilter::Crypt => false,"), ("| StreamFilter::RunLengthDecode => false,", "| StreamFilter::RunLengthDecode | StreamFilter::Crypt => false,"), (" | StreamFilter::RunLengthDecode))", " | StreamFilter::RunLengthDecode | StreamFilter::Crypt))"), ("                    | StreamFilter::RunLengthDecode\n                )).unwrap_or(filters.len());", "                    | StreamFilter::RunLengthDecode | StreamFilter::Crypt\n                )).unwrap_or(filters.len());")]),
+    ("raw_image_data: default false", TY, [("                    _ => true\n                }).unwrap_or(filters.len());", "                    _ => false\n                }).unwrap_or(filters.len());"), ("rposition(|f| !matches!(f, StreamFilter::ASCIIHexDecode", "rposition(|f| matches!(f, StreamFilter::ASCIIHexDecode"), ("rposition(|f| !matches!(f,\n", "rposition(|f| matches!(f,\n")]),
     ("raw_image_data: JPX no longer an image codec", TY, [("                    [StreamFilter::JPXDecode] |\n", ""), (" | StreamFilter::JPXDecode\n", "\n")]),
     # ---- gen/extract_typed.py
     ("Option<T>: null object no longer None", OM, [("            Primitive::Null => Ok(None),\n            p => match T::from_primitive(p, resolve) {", "            Primitive::Integer(0) => Ok(None),\n            p => match T::from_primitive(p, resolve) {"),
@@ -283,22 +283,22 @@ SENSITIVITY = [
     ("save: /Size = len + 1 (seeded C10b)", FI, [("trailer.size = (self.refs.len() + 2) as _;", "trailer.size = (self.refs.len() + 1) as _;")]),
     ("Storage::update: a compressed object cannot be updated", FI, [("XRef::Stream { .. } => PlainRef { id: old.id, gen: 0 },", "XRef::Stream { .. } => panic!(),"), ("XRef::Stream { .. } | XRef::Promised => PlainRef { id: old.id, gen: 0 },", "XRef::Stream { .. } | XRef::Promised => panic!(),")]),
     ("Storage::update: generation of the entry ignored", FI, [("XRef::Raw { gen_nr, .. } => PlainRef { id: old.id, gen: gen_nr },", "XRef::Raw { .. } => PlainRef { id: old.id, gen: 0 },")]),
-    ("StorageResolver::get: cached error not wrapped", FI, [("Err(e) if computed => Err(PdfError::Shared { source: e.clone()}),", "Err(e) if computed => Err(e.clone()),")]),
+    ("StorageResolver::get: cached error not wrapped", FI, [("Err(e) if computed => Err(PdfError::Shared { source: e.clone()}),", "Err(e) if computed => Err(e.clone()),"), ("Err(e) if computed => Err(PdfError::Shared { source: e }),", "Err(e) if computed => Err(e),")]),
     ("NameTree::walk: depth budget 31", TY, [("self.walk_limited(r, callback, 32,", "self.walk_limited(r, callback, 31,", 0)]),
-    ("ColorSpace: depth budget 4", "pdf/src/object/color.rs", [("ColorSpace::from_primitive_depth(p, resolve, 5)", "ColorSpace::from_primitive_depth(p, resolve, 4)")]),
+    ("ColorSpace: depth budget 4", "pdf/src/object/color.rs", [("ColorSpace::from_primitive_depth(p, resolve, 5)", "ColorSpace::from_primitive_depth(p, resolve, 4)"), ("const MAX_NESTING: usize = 5;", "const MAX_NESTING: usize = 4;"), ("const MAX_BASE_DEPTH: usize = 5;", "const MAX_BASE_DEPTH: usize = 4;")]),
     ("Function type 2: domain guard 1", "pdf/src/object/function.rs", [("if raw.domain.len() < 2 {", "if raw.domain.len() < 1 {")]),
     ("Encoding differences: gid += 1", "pdf/src/encoding.rs", [("gid = gid.wrapping_add(1);", "gid += 1;")]),
     # ---- round 2: spots whose reading was changed (evaluation / helper following / normalised writes)
-    ("hex_digit_value helper: a..f + 0xB (r3)", S, [("b'a' ..= b'f' => Some(c - b'a' + 0xA),", "b'a' ..= b'f' => Some(c - b'a' + 0xB),"), ("b'a' ..= b'f' => c1 - b'a' + 0xA,", "b'a' ..= b'f' => c1 - b'a' + 0xB,")]),
-    ("next_hex_byte: second read steps back on '<'", S, [("            (b'>', None) => {\n", "            (b'<', None) => {\n"), ("            b'>' => {\n                self.back()?;", "            b'<' => {\n                self.back()?;"), ("            0x3E => {\n                self.back()?;", "            0x3C => {\n                self.back()?;")]),
-    ("sym_85: offset", E, [("Some(b - 0x21)", "Some(b - 0x20)"), ("- 0x21)", "- 0x20)")]),
-    ("encode_nibble: 10..15 -> 10..14", E, [("10 ..= 15 =>", "10 ..= 14 =>")]),
+    ("hex_digit_value helper: a..f + 0xB (r3)", S, [("b'a' ..= b'f' => Some(c - b'a' + 0xA),", "b'a' ..= b'f' => Some(c - b'a' + 0xB),"), ("b'a' ..= b'f' => c1 - b'a' + 0xA,", "b'a' ..= b'f' => c1 - b'a' + 0xB,"), ("b'a'..=b'f' => Some(c - b'a' + 0xA),", "b'a'..=b'f' => Some(c - b'a' + 0xB),")]),
+    ("next_hex_byte: second read steps back on '<'", S, [("            (b'>', None) => {\n", "            (b'<', None) => {\n"), ("            b'>' => {\n                self.back()?;", "            b'<' => {\n                self.back()?;"), ("            0x3E => {\n                self.back()?;", "            0x3C => {\n                self.back()?;"), ("None if c2 == b'>' => {", "None if c2 == b'<' => {")]),
+    ("sym_85: offset", E, [("Some(b - 0x21)", "Some(b - 0x20)"), ("- 0x21)", "- 0x20)"), ("Some(b - A85_FIRST)", "Some(b - A85_FIRST + 1)")]),
+    ("encode_nibble: 10..15 -> 10..14", E, [("10 ..= 15 =>", "10 ..= 14 =>"), ("10..=15 =>", "10..=14 =>")]),
     ("from_password: R5/R6 slice of U", C, [("&u[32..40];", "&u[32..41];")]),
     ("from_password: user hash slice", C, [("let user_hash = &u[0..32];", "let user_hash = &u[0..31];"), ("let user_hash = &u[..32];", "let user_hash = &u[..31];")]),
     ("revision_6_kdf: block size 48 hashed with sha512", C, [("                48 => {\n                    sha384.update(encrypted);", "                48 => {\n                    sha512.update(encrypted);")]),
     ("from_password: revision 7 admitted", C, [("if !(2..=6).contains(&level) {", "if !(2..=7).contains(&level) {"), ("if level < 2 || level > 6 {", "if level < 2 || level > 7 {")]),
     ("from_password: owner rounds 19", C, [("{ 20u8 }", "{ 19u8 }"), ("{ 20_u8 }", "{ 19_u8 }")]),
-    ("from_password: owner rounds polarity", C, [("let rounds = if level == 2 {", "let rounds = if level != 2 {"), ("let rounds = if level != 2 {", "let rounds = if level == 2 {")]),
+    ("from_password: owner rounds polarity", C, [("let rounds = if level == 2 {", "let rounds = if level != 2 {"), ("let rounds = if level != 2 {", "let rounds = if level == 2 {"), ("let rounds = if revision == 2 {", "let rounds = if revision != 2 {")]),
     ("compute_u_rev_3_4: 18 rounds", C, [("1u8..=19 {", "1u8..=18 {"), ("1..=19u8 {", "1..=18u8 {")]),
     ("check_cid: MAX_CID itself rejected", F, [("if cid > MAX_CID {", "if cid >= MAX_CID {"), ("if cid <= MAX_CID {", "if cid < MAX_CID {"), ("if MAX_CID < cid {", "if MAX_CID <= cid {")]),
     ("check_cid: polarity", F, [("if cid > MAX_CID {", "if cid < MAX_CID {"), ("if cid <= MAX_CID {", "if cid > MAX_CID {"), ("if MAX_CID < cid {", "if MAX_CID > cid {")]),
@@ -312,7 +312,7 @@ SENSITIVITY = [
     ("walk_limited: visited test dropped (NameTree)", TY, [("if !seen.insert(tree_ref.get_inner()) {", "if seen.contains(&tree_ref.get_inner()) {", 0), ("if !seen.insert(plain) {", "if seen.contains(&plain) {")]),
     ("walk_limited: recursion with the same depth", TY, [("tree.walk_limited(r, callback, depth - 1, seen)?;", "tree.walk_limited(r, callback, depth, seen)?;", 0)]),
     ("walk_limited: another set is inserted into (let-hoisted)", TY, [("let plain = tree_ref.get_inner();", "let plain = tree_ref.get_outer();"), ("if !seen.insert(tree_ref.get_inner()) {", "if !seen.insert(tree_ref.get_outer()) {", 0)]),
-    ("XRefTable::get: missing entry is a NullRef", X_, [("None => Err(PdfError::UnspecifiedXRefEntry {id}),", "None => Err(PdfError::NullRef {obj_nr: id}),"), (".ok_or(PdfError::UnspecifiedXRefEntry { id })", ".ok_or(PdfError::NullRef { obj_nr: id })"), (".ok_or_else(|| PdfError::UnspecifiedXRefEntry { id })", ".ok_or_else(|| PdfError::NullRef { obj_nr: id })")]),
+    ("XRefTable::get: missing entry is a NullRef", X_, [("None => Err(PdfError::UnspecifiedXRefEntry {id}),", "None => Err(PdfError::NullRef {obj_nr: id}),"), (".ok_or(PdfError::UnspecifiedXRefEntry { id })", ".ok_or(PdfError::NullRef { obj_nr: id })"), (".ok_or_else(|| PdfError::UnspecifiedXRefEntry { id })", ".ok_or_else(|| PdfError::NullRef { obj_nr: id })"), (".ok_or(PdfError::UnspecifiedXRefEntry {id})", ".ok_or(PdfError::NullRef {obj_nr: id})")]),
     ("save: the table is not rolled back", FI, [("            self.refs.truncate(num_refs);\n", ""), ("                self.refs.truncate(num_refs);\n", "")]),
     ("save: the error of write_revision is swallowed", FI, [("            self.refs.truncate(num_refs);\n            return Err(e);", "            self.refs.truncate(num_refs);"), ("                self.refs.truncate(num_refs);\n                return Err(e);", "                self.refs.truncate(num_refs);")]),
     ("xref table: n and f exchanged", PX, [('if w3 == "f" {', 'if w3 == "n" {', 0), ('if kind == "n" {', 'if kind == "f" {', 0), ('if keyword == "f" {', 'if keyword == "n" {', 0)]),
@@ -320,12 +320,27 @@ SENSITIVITY = [
     ("write_revision: startxref tail without final newline", FI, [('"\\nstartxref\\n{}\\n%%EOF\\n"', '"\\nstartxref\\n{}\\n%%EOF"'), ('writeln!(self.backend, "\\nstartxref\\n{xref_pos}\\n%%EOF")', 'write!(self.backend, "\\nstartxref\\n{xref_pos}\\n%%EOF")')]),
     ("write_revision: object header keyword", FI, [('"{} {} obj", id, gen', '"{} {} objx", id, gen'), ('"{id} {gen} obj"', '"{id} {gen} objx"')]),
     ("next_stream: CR alone accepted", L, [("if b1 != b'\\n' {", "if b1 != b'\\n' && false {"), ("if second != 0x0A {", "if second != 0x0A && false {"), ("if second != b'\\n' {", "if second != b'\\n' && false {")]),
-    ("next_stream: CR test -> FF", L, [("} else if b0 == b'\\r' {", "} else if b0 == b'\\x0c' {"), ("} else if first == 0x0D {", "} else if first == 0x0C {"), ("} else if first == b'\\r' {", "} else if first == b'\\x0c' {"), ("            b'\\r' => {\n                let &b1", "            b'\\x0c' => {\n                let &b1")]),
+    ("next_stream: CR test -> FF", L, [("} else if b0 == b'\\r' {", "} else if b0 == b'\\x0c' {"), ("} else if first == 0x0D {", "} else if first == 0x0C {"), ("} else if first == b'\\r' {", "} else if first == b'\\x0c' {"), ("            b'\\r' => {\n                let &b1", "            b'\\x0c' => {\n                let &b1"), ("            b'\\r' => {\n                let &second", "            b'\\x0c' => {\n                let &second")]),
     ("lzw_decode: early change polarity", E, [("let mut decoder = if params.early_change != 0 {", "let mut decoder = if params.early_change == 0 {"), ("let mut decoder = if params.early_change == 0 {", "let mut decoder = if params.early_change != 0 {")]),
     ("lzw_decode: symbol size 9", E, [("Decoder::new(BitOrder::Msb, 8)", "Decoder::new(BitOrder::Msb, 9)")]),
     ("serialize_ops: SCN operands without separating space", CO, [("                for p in args {\n                    p.serialize(f)?;\n                    write!(f, \" \")?;\n                }\n                writeln!(f, \"SCN\")?;", "                for p in args {\n                    p.serialize(f)?;\n                }\n                writeln!(f, \"SCN\")?;"),
-                                                               ("        operand.serialize(f)?;\n        write!(f, \" \")?;", "        operand.serialize(f)?;")]),
+                                                               ("        operand.serialize(f)?;\n        write!(f, \" \")?;", "        operand.serialize(f)?;"), ("        p.serialize(f)?;\n        write!(f, \" \")?;", "        p.serialize(f)?;")]),
     ("deep_clone_op: XObject looked up among the fonts (seeded C20b)", CO, [("if !resources.xobjects.contains_key(name) {", "if !resources.fonts.contains_key(name) {")]),
+    # ---- round 3: named constants, one more level of helpers, evaluated dispatch
+    ("const: ASCII85 first symbol", E, [("const A85_FIRST: u8 = b'!';", "const A85_FIRST: u8 = b'\\\"';"), ("b @ 0x21 ..= 0x75 => Some(b - 0x21)", "b @ 0x22 ..= 0x75 => Some(b - 0x22)")]),
+    ("const: run-length EOD marker 127", E, [("const RUN_LENGTH_EOD: u8 = 128;", "const RUN_LENGTH_EOD: u8 = 127;"), ("} else if length >= 129 {", "} else if length >= 128 {"), ("} else if len_byte >= 129 {", "} else if len_byte >= 128 {")]),
+    ("const: a local const shadows nothing else (PAGE depth)", TY, [("const PAGE_TREE_DEPTH: usize = 16;", "const PAGE_TREE_DEPTH: usize = 15;"), ("const MAX_PAGE_TREE_DEPTH: usize = 16;", "const MAX_PAGE_TREE_DEPTH: usize = 15;"), ("self.page_limited(resolve, page_nr, 16)", "self.page_limited(resolve, page_nr, 15)")]),
+    ("const: AES IV length", C, [("const AES_IV_LEN: usize = 16;", "const AES_IV_LEN: usize = 15;"), ("let (iv, ciphertext) = data.split_at_mut(16);", "let (iv, ciphertext) = data.split_at_mut(15);", 0)]),
+    ("const: AES salt", C, [('const AES_SALT: &[u8; 4] = b"sAlT";', 'const AES_SALT: &[u8; 4] = b"sAlt";'), ('b"sAlT"', 'b"salT"'), ("[0x73, 0x41, 0x6C, 0x54]", "[0x73, 0x61, 0x6C, 0x54]"), ("[b's', b'A', b'l', b'T']", "[b's', b'a', b'l', b'T']")]),
+    ("const: PADDING byte", C, [("0x28, 0xBF, 0x4E, 0x5E", "0x28, 0xBF, 0x4E, 0x5F"), ("0x28, 0xbf, 0x4e, 0x5e", "0x28, 0xbf, 0x4e, 0x5f")]),
+    ("const: R5 password cap", C, [("const MAX_PASSWORD_LEN_V5: usize = 127;", "const MAX_PASSWORD_LEN_V5: usize = 126;"), ("if password_encoded.len() > 127 {", "if password_encoded.len() > 126 {")]),
+    ("const table: inline-image key abbreviation", CO, [('("BPC", "BitsPerComponent"),', '("BPC", "BitsPerComponents"),')]),
+    ("const table: lexer delimiters", L, [('const DELIMITERS: &[u8] = b"()<>[]{}/%";', 'const DELIMITERS: &[u8] = b"()<>[]{}/";'), ('b"()<>[]{}/%".contains(b)', 'b"()<>[]{}%".contains(b)'), (" | b'/' | b'%'))", " | b'%'))")]),
+    ("unpredict: TIFF value 3", E, [("            2 => tiff_unpredict(decoded, params),", "            3 => tiff_unpredict(decoded, params),"), ("} else if predictor == 2 {", "} else if predictor == 3 {"), ("        2 => tiff_unpredict(decoded, params),", "        3 => tiff_unpredict(decoded, params),")]),
+    ("run_length_decode: repeat runs from 130", E, [("            129..=255 => {", "            130..=255 => {"), ("} else if length >= 129 {", "} else if length >= 130 {"), ("} else if length > RUN_LENGTH_EOD {", "} else if length > RUN_LENGTH_EOD + 1 {"), ("} else if len_byte >= 129 {", "} else if len_byte >= 130 {")]),
+    ("serialize_ops: keyword handed to the name-operand helper", CO, [('serialize_name_op(name, "gs", f)?', 'serialize_name_op(name, "gS", f)?'), ('writeln!(f, " gs")?;', 'writeln!(f, " gS")?;')]),
+    ("next_word: an unterminated comment stops one byte early", L, [(".map_or(self.buf.len(), |off| pos + off + 1);", ".map_or(self.buf.len() - 1, |off| pos + off + 1);"), ("None => pos = self.buf.len(),", "None => pos = self.buf.len() - 1,")]),
+    ("from_password: R5 password truncation dropped", C, [("&password_encoded[..password_encoded.len().min(MAX_PASSWORD_LEN_V5)];", "&password_encoded[..password_encoded.len()];"), ("password_encoded = &password_encoded[..127];", "password_encoded = &password_encoded[..128];")]),
     # ---- gen/extract_pagetree.py
     ("PagesNode: /Type /Pagez", TY, [('"Pages" => Ok(PagesNode::Tree(', '"Pagez" => Ok(PagesNode::Tree(')]),
 ]
@@ -364,25 +379,30 @@ def sensitivity(base_patches, only=None):
         for p in base_patches:
             apply_patch(base, p)
         g0, m0 = translate(base, os.path.join(tmp, "g0"))
-        for k, (what, rel, cands) in enumerate(SENSITIVITY):
-            if only and only not in what:
-                continue
-            tree = os.path.join(tmp, "t")
-            shutil.rmtree(tree, ignore_errors=True)
+        def one(job):
+            k, (what, rel, cands) = job
+            tree = os.path.join(tmp, "t%d" % k)
             shutil.copytree(base, tree)
-            if not apply_candidates(tree, rel, cands):
-                print("SKIPPED  %-62s (text not found in %s)" % (what, rel))
-                skipped += 1
-                continue
-            g1, m1 = translate(tree, os.path.join(tmp, "g1"))
+            try:
+                if not apply_candidates(tree, rel, cands):
+                    return ("SKIPPED", what, "(text not found in %s)" % rel)
+                g1, m1 = translate(tree, os.path.join(tmp, "g1_%d" % k))
+            finally:
+                shutil.rmtree(tree, ignore_errors=True)
             res = compare(g0, m0, g1, m1)
             lost = [a for a in m1 if a not in m0]
             hit = (not res["identical"]) or lost
             names = ", ".join(c["name"] for c in res["changed"][:5])
             if lost:
                 names = "anchor lost: " + "; ".join(a.split(": ")[0] for a in lost[:2]) + (" | " + names if names else "")
-            print("%-8s %-62s %s" % ("seen" if hit else "BLIND", what, names))
-            bad += 0 if hit else 1
+            return ("seen" if hit else "BLIND", what, names)
+        jobs = [(k, e) for k, e in enumerate(SENSITIVITY) if not (only and only not in e[0])]
+        from concurrent.futures import ThreadPoolExecutor
+        with ThreadPoolExecutor(max_workers=int(os.environ.get("SELFTEST_JOBS", "8"))) as ex:
+            for status, what, names in ex.map(one, jobs):
+                print("%-8s %-62s %s" % (status, what, names))
+                bad += 1 if status == "BLIND" else 0
+                skipped += 1 if status == "SKIPPED" else 0
         print("sensitivity: %d edits, %d BLIND, %d skipped" % (len(SENSITIVITY), bad, skipped))
     finally:
         shutil.rmtree(tmp, ignore_errors=True)
